@@ -70,6 +70,16 @@ Definition present (cfg : config) (n : Z) : bool :=
 Definition answers_ok (cfg : config) (n : Z) : bool :=
   match disp_of cfg n with Some DOk => true | _ => false end.
 
+(* The node's service list (nodes.yaml, nodes.<id>.Services) names services; the services
+   section defines a name (gives it a type - here: a disposition) or does not (a leftover, a
+   typo).  App.StartServices starts, Cluster.makeFullNameServices advertises and
+   App.FilterSelfServices hands to the controller exactly the DEFINED entries, in list order:
+   they are the configuration [config] everything else is stated over. *)
+Definition nodelist := list (Z * option disp).
+Definition defined (nl : nodelist) : config :=
+  flat_map (fun e => match snd e with Some d => [(fst e, d)] | None => [] end) nl.
+Definition is_defined (e : Z * option disp) : bool := match snd e with Some _ => true | None => false end.
+
 Inductive cmd := CStat | CRetire | CExit | CWebNodes | CWebRetire | CWebExit | COther.
 Inductive scmd := SRetired | SOther.
 
